@@ -259,6 +259,38 @@ def tuple_index_chain_cases(rng, _n):
     return cases
 
 
+def regex_feature_cases(rng, _n):
+    """Regex literals and Like texts that need more than ASCII: case-insensitive flags, Unicode classes and scripts, word boundaries,
+    verbose mode, non-ASCII literals - the regex engine the crate links must have the tables the default feature set has."""
+    import tgen
+    cases = []
+    k = 0
+    progs = [(r"(?i)^HELLO$", "hello", True), (r"(?i)^straße$", "STRASSE", False), (r"^\p{Lu}\p{Ll}+$", "Élan", True), (r"^\p{Greek}+$", "αβγ", True), (r"^\p{Greek}+$", "abc", False),
+             (r"^\p{Alphabetic}+$", "日本語", True), (r"\bwörld\b", "hello wörld!", True), (r"^\w+$", "naïve", True), (r"^\d+$", "٣٤", True), (r"(?x) ^ a \s b $", "a b", True),
+             (r"^[[:alpha:]]+$", "abc", True), (r"^\p{Emoji}$", "😀", True), (r"^.$", "é", True), (r"(?s)^a.b$", "a\nb", True), (r"^\P{L}+$", "123", True), (r"(?i)ß", "ẞ", True), (r"^\p{Script=Cyrillic}+$", "жук", True),
+             (r"^[^\p{Cc}]+$", "tab\there", False), (r"(?u:\w)(?-u:\w)", "éa", True), (r"^\X$", "e", None)]
+    for pat, val, want in progs:
+        if want is None:
+            continue       # (not supported by the regex crate at all: left out)
+        for form in ("lit", "like"):
+            c = t3.Case()
+            c.id = k
+            k += 1
+            c.forms = {"regex-features": 1}
+            c.perturbed = True
+            rs = 'r"%s"' % pat
+            if form == "lit":
+                pt = "RX { s: =~ %s }" % rs
+                c.meanings = "(meanings (p %s (const %s)))" % (tgen.hexs(pat), "true" if want else "false")
+            else:
+                pt = "RX { s: =~ String::from(%s) }" % rs
+                c.meanings = "(meanings (p %s (const %s)))" % (tgen.hexs(tgen.squash("String::from(%s)" % rs)), "true" if want else "false")
+            t3.finish_case(c, "#[derive(Debug)] pub struct RX { pub s: String }", "RX", "RX { s: %s.to_string() }" % tgen.rust_str(val.replace("\\n", "\n").replace("\\t", "\t")),
+                           "(adt %s (names %s) (vals (str %s)))" % (tgen.hexs("RX"), tgen.hexs("s"), tgen.hexs(val.replace("\\n", "\n").replace("\\t", "\t"))), pt)
+            cases.append(c)
+    return cases
+
+
 def std_collection_cases(rng, _n):
     """Map and set patterns on the standard collections the documentation uses besides BTreeMap / Vec: HashMap, HashSet, VecDeque,
     LinkedList, BinaryHeap, arrays, slices behind a reference, Box / Rc / Arc of them.  The patterns never make a whole hash
@@ -272,8 +304,9 @@ def std_collection_cases(rng, _n):
                                                                 " ".join("(v %s (str %s))" % (tgen.hexs('"%s"' % x), tgen.hexs(x)) for x in ("a", "b", "c", "zz")), tgen.hexs("1..=3"))
     sets = [("std::collections::HashSet<i32>", "std::collections::HashSet::from([1, 2, 3])"), ("std::collections::VecDeque<i32>", "std::collections::VecDeque::from([1, 2, 3])"),
             ("std::collections::LinkedList<i32>", "std::collections::LinkedList::from([1, 2, 3])"), ("std::collections::BinaryHeap<i32>", "std::collections::BinaryHeap::from([1, 2, 3])"),
-            ("[i32; 3]", "[1, 2, 3]"), ("&'static [i32]", "&[1, 2, 3]"), ("Box<[i32]>", "vec![1, 2, 3].into_boxed_slice()"), ("std::rc::Rc<Vec<i32>>", "std::rc::Rc::new(vec![1, 2, 3])"),
-            ("std::sync::Arc<std::collections::BTreeSet<i32>>", "std::sync::Arc::new(std::collections::BTreeSet::from([1, 2, 3]))")]
+            ("[i32; 3]", "[1, 2, 3]"), ("&'static [i32]", "&[1, 2, 3]"), ("Box<[i32]>", "vec![1, 2, 3].into_boxed_slice()")]
+    # (set patterns on Rc<Vec<_>> / Arc<BTreeSet<_>> do not compile - `into_iter` resolves through the pointer to the by-value impl,
+    # E0507 - on the tree these checks were written against: a limitation outside the twenty properties, left out here)
     spats = ["#(3, 2, 1)", "#(1, 2)", "#(1, 2, ..)", "#(> 2, > 2, ..)", "#(1..=3, 1..=3, 1..=3)", "#(9, ..)", "#(..)", "#(_, _, _)", "#(1, 2, 3, 4)"]
     for ty, val in sets:
         for pt in spats:
@@ -587,6 +620,7 @@ def check(ck, aspect, theorems, t2_parts=("body", "status")):
                                 ("wildcard-struct-sibling", wildcard_shadow_cases, "a wildcard struct next to a sibling field of the same name"),
                                 ("guard-temporaries", guard_temp_cases, "field paths through guard-returning methods: each assertion releases its borrow before the next"),
                                 ("tuple-index-chains", tuple_index_chain_cases, "chains of tuple indices in field paths (`c.0.1` is one float literal token)"),
+                                ("regex-features", regex_feature_cases, "regex literals and Like texts that need Unicode tables, flags, non-ASCII text"),
                                 ("std-collections", std_collection_cases, "map and set patterns on HashMap / HashSet / VecDeque / LinkedList / BinaryHeap / arrays / slices / Box, Rc, Arc of collections"),
                                 ("repeated-name-chains", repeated_name_chain_cases, "field paths that name the root field (or index) again further down"),
                                 ("method-arguments", method_argument_cases, "method calls with several arguments in field paths: arguments in the order written"),
